@@ -29,6 +29,7 @@ structure St where
   defs : List EvDef := []
   sigs : List (String × Vote × Bool) := []
   sys : Option Sys := none
+  ab : Bool := false        -- `ctx … mode=ab`: the chain is applied by ApplyBlock (apply / abrestart)
 
 def St.ctx (s : St) : Ctx :=
   { blocks := s.blocks, maxAgeBlocks := s.A, maxAgeDur := s.D,
@@ -133,8 +134,8 @@ def step (s : St) (toks : List String) : St × String :=
       -- `M` = Evidence.MaxBytes of the chain's consensus params: the pool never reads it (the
       -- proposer passes it to PendingEvidence), so the model has no such field
       match kv rest "M" with
-      | none => ({ A := a, D := d }, "ok")
-      | some m => if m.toInt?.isSome then ({ A := a, D := d }, "ok") else (s, "bad-op")
+      | none => ({ A := a, D := d, ab := kv rest "mode" == some "ab" }, "ok")
+      | some m => if m.toInt?.isSome then ({ A := a, D := d, ab := kv rest "mode" == some "ab" }, "ok") else (s, "bad-op")
     | _, _ => (s, "bad-op")
   | "blk" :: rest =>
     match (kv rest "h").bind String.toInt?, (kv rest "t").bind String.toInt?,
@@ -150,7 +151,7 @@ def step (s : St) (toks : List String) : St × String :=
     match kv rest "id", kv rest "kind", (kv rest "hash").bind parseHash, (kv rest "sz").bind String.toNat?,
           (kv rest "vb").bind parseBool, (kv rest "tvp").bind String.toInt?, (kv rest "t").bind String.toInt? with
     | some id, some kind, some hash, some sz, some vb, some tvp, some t =>
-      if (lookup s id).isSome then (s, "bad-op") else
+      if (lookup s id).isSome ∨ s.blocks.isEmpty then (s, "bad-op") else
       if kind = "dv" then
         match (kv rest "a").bind parseVote, (kv rest "b").bind parseVote, (kv rest "vp").bind String.toInt?,
               (kv rest "sa").bind parseBool, (kv rest "sb").bind parseBool with
@@ -174,10 +175,19 @@ def step (s : St) (toks : List String) : St × String :=
         | _, _, _, _, _, _, _, _, _, _, _ => (s, "bad-op")
       else (s, "bad-op")
     | _, _, _, _, _, _, _ => (s, "bad-op")
+  | "abinit" :: rest =>
+    -- genuine chain (blocks 1..h applied by ApplyBlock without evidence): same pool as `init`
+    match (kv rest "h").bind String.toInt? with
+    | some h =>
+      if s.sys.isSome ∨ h < 1 ∨ h > s.blocks.length ∨ !s.ab then (s, "bad-op") else
+      let c := s.ctx
+      let sys := initSys c h
+      ({ s with sys := some sys }, s!"ok sh={sys.stateH} bh={sys.storeH} " ++ view c sys.pool)
+    | none => (s, "bad-op")
   | "init" :: rest =>
     match (kv rest "h").bind String.toInt? with
     | some h =>
-      if s.sys.isSome ∨ h < 1 ∨ h > s.blocks.length then (s, "bad-op") else
+      if s.sys.isSome ∨ h < 1 ∨ h > s.blocks.length ∨ s.ab then (s, "bad-op") else
       let c := s.ctx
       let sys := initSys c h
       ({ s with sys := some sys }, "ok " ++ view c sys.pool)
@@ -186,6 +196,8 @@ def step (s : St) (toks : List String) : St × String :=
     match s.sys with
     | none => (s, "bad-op")
     | some sys =>
+      if s.ab ∧ (op = "grow" ∨ op = "update" ∨ op = "cupdate" ∨ op = "restart") then (s, "bad-op")
+      else if !s.ab ∧ (op = "apply" ∨ op = "abrestart") then (s, "bad-op") else
       match op with
       | "grow" =>
         match (kv rest "h").bind String.toInt? with
@@ -234,6 +246,38 @@ def step (s : St) (toks : List String) : St × String :=
           | .dv dv => if sw then sysStep s sys (.report dv.b dv.a) else sysStep s sys (.report dv.a dv.b)
           | .lca _ => (s, "bad-op")
         | _, _ => (s, "bad-op")
+      | "apply" =>
+        -- consensus' finalizeCommit for block h: ValidateBlock (→ CheckEvidence), SaveBlock, then
+        -- ApplyBlock = [SaveABCIResponses, evpool.Update, store.Save]; `crash` = the process dies
+        -- before / after the k-th of those three calls
+        match (kv rest "h").bind String.toInt?, (kv rest "ev").bind (lookupAll s), kv rest "crash" with
+        | some h, some ds, some cr =>
+          if !(["-", "b1", "a1", "b2", "a2", "b3", "a3"].contains cr) ∨ sys.dead ∨ h ≠ sys.storeH + 1 ∨
+              sys.stateH ≠ sys.storeH ∨ h > s.blocks.length ∨ !(ds.all (·.vb)) then (s, "bad-op")
+          else
+            let c := s.ctx
+            let evs := ds.map (·.ev)
+            let (s1, r) := Evidence.step c sys (.check evs)
+            let fin := fun (sys' : Sys) (res : String) =>
+              ({ s with sys := some sys' }, s!"{res} sh={sys'.stateH} bh={sys'.storeH} " ++ view c sys'.pool)
+            if r ≠ .ok then fin s1 (showCheckRes r)
+            else
+              let s2 := (Evidence.step c s1 (.saveBlock h)).1
+              let updated := cr = "-" ∨ cr = "a2" ∨ cr = "b3" ∨ cr = "a3"
+              let saved := cr = "-" ∨ cr = "a3"
+              let (s3, ru) := if updated then Evidence.step c s2 (.update h evs) else (s2, Res.ok)
+              if ru = .panicked then fin s3 "panic"
+              else
+                let s4 := if saved then (Evidence.step c s3 (.saveState h)).1 else s3
+                if cr = "-" then fin s4 "ok" else fin { s4 with dead := true } "crash"
+        | _, _, _ => (s, "bad-op")
+      | "abrestart" =>
+        if rest.isEmpty then
+          let c := s.ctx
+          let s1 := (Evidence.step c sys .replay).1
+          let s2 := (Evidence.step c s1 .restart).1
+          ({ s with sys := some s2 }, s!"ok sh={s2.stateH} bh={s2.storeH} " ++ view c s2.pool)
+        else (s, "bad-op")
       | "recv" =>
         -- a peer message: decoding + ValidateBasic of every item first, then AddEvidence one by one
         match (kv rest "l").bind (lookupAll s) with
